@@ -114,6 +114,35 @@ class Fn:
                     return b
         raise AnalysisError(f"{self.ref}: statement has no enclosing block")
 
+    def reaches_assuming(self, src: int, dst: int, assume: Iterable[tuple[str, bool]], avoid: Iterable[int] = ()) -> bool:
+        """is there a CFG path src -> dst that avoids `avoid` and takes no branch edge whose condition contradicts
+        one of the assumed atoms?  (path-sensitive in the assumed atoms only: `if a and b: X; if a: Y` and the nested
+        form prune the same edges.)  The assumed atoms must not be written on the way - the caller's business."""
+        cfg = self.cfg
+        neg = {negate(a) for a in assume} - {None}
+        edge_atoms = {}
+        for st, n in cfg.tedge.items():
+            if isinstance(st, (ast.If, ast.While)):
+                edge_atoms[n] = unit_propagate(flatten_cond(st.test, True) + list(assume))
+        for st, n in cfg.fedge.items():
+            if isinstance(st, (ast.If, ast.While)):
+                edge_atoms[n] = unit_propagate(flatten_cond(st.test, False) + list(assume))
+        avoid = set(avoid)
+        seen = {src}
+        stack = [src]
+        while stack:
+            n = stack.pop()
+            if n == dst:
+                return True
+            for x in cfg.nodes[n].succ:
+                if x in seen or x in avoid:
+                    continue
+                if x in edge_atoms and (any(a in neg for a in edge_atoms[x]) or contradictory(edge_atoms[x])):
+                    continue
+                seen.add(x)
+                stack.append(x)
+        return False
+
     def before(self, a: ast.AST, b: ast.AST) -> bool:
         """a completed normally on every path that reaches b"""
         try:
@@ -527,6 +556,32 @@ def unit_propagate(atoms: list) -> list:
         if not added:
             break
     return atoms
+
+
+def contradictory(atoms: list) -> bool:
+    """some atom together with its negation, or a holding disjunction all of whose operands are refuted"""
+    known = set(atoms)
+    for a in atoms:
+        t, p = a
+        if p and t.startswith("(") and " or " in t:
+            unit_propagate([a])  # fills the cache
+            ops = _disj_cache.get(t) or []
+            if ops and all(all(x in known for x in neg) for pos, neg in ops):
+                return True
+        else:
+            n = negate(a)
+            if n is not None and n in known:
+                return True
+    return False
+
+
+def negate(atom: tuple[str, bool]) -> Optional[tuple[str, bool]]:
+    """the canonical atom that holds exactly when `atom` does not (None for disjunction atoms)"""
+    t, p = atom
+    if t.startswith("(") and (" or " in t or " and " in t):
+        return None
+    r = flatten_cond(ast.parse(t, mode="eval").body, not p)
+    return r[0] if len(r) == 1 else None
 
 
 def _has_cmp(text: str) -> bool:
